@@ -20,7 +20,7 @@ RULE = ("in-memory LASFiles with 0..6 generated items in ~Version (after VERS/WR
         "fields, numeric and textual values, duplicate mnemonics, blank mnemonics on lines without a further period); a width "
         "rotation makes each item in turn the widest mnemonic / widest unit+value / the one with empty value / empty unit; x "
         "version {1.2, 2.0} x mnemonic_case {preserve, upper, lower}. distinct = distinct (section sizes, widest item, field "
-        "classes, version, case); non-trivial = >= 2 generated items in some section Added later: second-generation round trips (read with each mnemonic_case, written again), fields of 120..400 characters, empty and blank-only lines and Unicode line separators inside ~Other, trailing empty lines, VERS at position 1, 2 or last of ~Version, legend words (MNEM/UNIT) and blank runs in values. Hunter round 2: values of None in every section.")
+        "classes, version, case); non-trivial = >= 2 generated items in some section Added later: second-generation round trips (read with each mnemonic_case, written again), fields of 120..400 characters, empty and blank-only lines and Unicode line separators inside ~Other, trailing empty lines, VERS at position 1, 2 or last of ~Version, legend words (MNEM/UNIT) and blank runs in values. Hunter round 2: values of None in every section. Round 8: LASFiles with NaN samples and / or without a NULL item.")
 ASSUMPTIONS = [
     "conformance clause of the statement is enforced by the generator (rv/gen/fields.py); NaN values and digit-underscore values (C08) are not generated; None values only in the dedicated grid cases",
     "allowed differences: STRT/STOP/STEP values, STRT/STOP/STEP and index-curve units, empty value with a unit -> 0",
